@@ -18,7 +18,10 @@ RULE = ("Hypothesis draws (N, K, p) with p a rational point of the simplex (posi
         "arrays of Fractions so E[pc_n] == sum p_i^2 and E[varpc_n] == E[pc_n^2] - E[pc_n]^2 (N >= 4) are checked with ==; "
         "(ii) the same with ordinary integer arrays and with pc(sample) / pc(a, b) on materialised samples (floats converted "
         "exactly, tolerance 1e-10); (iii) stdpc_n == sqrt(varpc_n), stdpc(sample) == stdpc_n(counts). A fixed grid of (N, K) "
-        "incl. K=2 up to N=120 and K=3 up to N=30 is enumerated at fixed rational points as well. Non-trivial: K >= 2, p not "
+        "incl. K=2 up to N=120 and K=3 up to N=30 is enumerated at fixed rational points as well; (iv) sizes beyond enumeration "
+        "(counts up to 2^31 in int32/uint32/int64/uint64/float64 arrays, lists, Series): unbiasedness at fixed N determines the "
+        "estimator uniquely (complete family), so pc_n / varpc_n must equal the closed-form U-statistics computed here in exact "
+        "integers from falling factorials. Non-trivial: K >= 2, p not "
         "uniform, N >= 4. Distinct = distinct (N, K, weights).")
 ASSUMPTIONS = ["each (N, K, p) is an exact identity check at one rational point; by Schwartz-Zippel a wrong polynomial survives a "
                "random point with probability <= degree/|range|, and hundreds of points are drawn",
@@ -47,6 +50,68 @@ def frac_array(counts):
     return a
 
 
+def exact_of(v, what, counts):
+    """Exact rational value of a returned number; a non-finite value for a defined estimate (N >= 2 resp. N >= 4) is a violation."""
+    if isinstance(v, Fraction):
+        return v
+    try:
+        f = float(v)
+    except (TypeError, ValueError):
+        raise Violation(f"{what}-not-a-number", f"{what}({counts}) returned {v!r}")
+    if not math.isfinite(f):
+        raise Violation(f"{what}-not-finite", f"{what}({counts}) = {v!r} although the estimate is defined for N = {sum(counts)}")
+    return Fraction(v)
+
+
+def unbiased_pc(counts):
+    """THE unbiased estimator of sum p_i^2 for N draws (unique: the multinomial family is complete), as an exact Fraction."""
+    N = sum(counts)
+    return Fraction(sum(c * (c - 1) for c in counts), N * (N - 1))
+
+
+def unbiased_var(counts):
+    """THE unbiased estimator of Var[pc_hat] = E[pc_hat^2] - (sum p_i^2)^2, derived here from falling factorials and not from the
+    library's formula: (sum p_i^2)^2 = sum_i p_i^4 + sum_{i != j} p_i^2 p_j^2 is estimated without bias by
+    [sum_i n_i^(4) + (sum_i n_i^(2))^2 - sum_i (n_i^(2))^2] / N^(4), with x^(r) the falling factorial."""
+    N = sum(counts)
+    f2 = [c * (c - 1) for c in counts]
+    f4 = [c * (c - 1) * (c - 2) * (c - 3) for c in counts]
+    n4 = N * (N - 1) * (N - 2) * (N - 3)
+    sq = Fraction(sum(f4) + sum(f2) ** 2 - sum(x * x for x in f2), n4)
+    return unbiased_pc(counts) ** 2 - sq
+
+
+def check_large(case, rec):
+    """Sample sizes far beyond what can be enumerated (clone sizes of deeply sequenced repertoires: 10^5 .. 10^9 reads). Unbiasedness
+    for every p at fixed N determines the estimator uniquely, so the returned float must be the closed form above."""
+    counts = case["counts"]
+    N = sum(counts)
+    dt = {"int64": np.int64, "uint64": np.uint64, "int32": np.int32, "uint32": np.uint32, "float64": np.float64}[case["dtype"]]
+    rec.note(case, len(counts) >= 2 and max(counts) >= 2 ** 21, [case["dtype"], f"N~1e{len(str(N)) - 1}", case["container"]])
+    arr = np.array(counts, dtype=dt)
+    if case["container"] == "list":
+        arr = [int(c) for c in counts]
+    elif case["container"] == "series":
+        import pandas as pd
+        arr = pd.Series(arr, index=[f"clone{i}" for i in range(len(counts))])
+    want = unbiased_pc(counts)
+    got = exact_of(call("pc_n", pyrepseq.pc_n, arr), "pc_n", counts)
+    if not close(got, want, 1e-11):
+        raise Violation("pc_n-large-counts", f"pc_n({counts}, {case['dtype']}) = {float(got)!r}, unbiased estimator = {float(want)!r}")
+    if N >= 4:
+        wv = unbiased_var(counts)
+        gv = exact_of(call("varpc_n", pyrepseq.varpc_n, arr), "varpc_n", counts)
+        # float64 evaluation of a difference of terms of size ~pc^2: absolute error a few ulp of pc^2, far below any wrap-around
+        tol = Fraction(1, 10 ** 6) * abs(wv) + Fraction(1, 10 ** 10) * want * want + Fraction(1, 10 ** 300)
+        if abs(gv - wv) > tol:
+            raise Violation("varpc_n-large-counts", f"varpc_n({counts}, {case['dtype']}) = {float(gv)!r}, unbiased estimator = {float(wv)!r}")
+        sd_raw = call("stdpc_n", pyrepseq.stdpc_n, arr)
+        if gv > 0:                       # an unbiased variance estimate may be <= 0; its root is then undefined, not wrong
+            sd = exact_of(sd_raw, "stdpc_n", counts)
+            if not close(float(sd), math.sqrt(float(gv)), 1e-9):
+                raise Violation("stdpc_n-not-sqrt", f"stdpc_n({counts}) = {float(sd)!r}, sqrt(varpc_n) = {math.sqrt(float(gv))!r}")
+
+
 def check_one(case, rec):
     N, w = case["N"], case["weights"]
     K = len(w)
@@ -65,20 +130,18 @@ def check_one(case, rec):
         pr = multinomial_prob(counts, p)
         total += pr
         fa = frac_array(counts)
-        v = call("pc_n", pyrepseq.pc_n, fa)
-        if not isinstance(v, Fraction):
-            v = Fraction(v)
+        v = exact_of(call("pc_n", pyrepseq.pc_n, fa), "pc_n", counts)
         e_pc += pr * v
         e_pc2 += pr * v * v
         if N >= 4:
             vv = call("varpc_n", pyrepseq.varpc_n, fa)
-            e_var += pr * Fraction(vv)
+            e_var += pr * exact_of(vv, "varpc_n", counts)
         if user:
             fits = [d for d in (np.int8, np.uint8, np.int16, np.int32, np.int64) if N <= np.iinfo(d).max]
             ia = np.array(counts, dtype=fits[(sum(counts[:1]) + len(fits) + K) % len(fits)])
             nz = ia[ia > 0]
             fv = float(call("pc_n", pyrepseq.pc_n, ia))
-            e_pc_float += pr * Fraction(fv)
+            e_pc_float += pr * exact_of(fv, "pc_n", counts)
             if not close(fv, v, 1e-12):
                 raise Violation("pc_n-int-vs-exact", f"pc_n({counts}) = {fv!r}, exact {v}")
             if N >= 4:
@@ -92,7 +155,7 @@ def check_one(case, rec):
                 if not close(p64, v, 1e-12) or (v64 >= 0 and not close(s64, math.sqrt(v64), 1e-12)):
                     raise Violation("reused-count-array", f"counts={counts}: pc_n={p64!r} (exact {v}), varpc_n={v64!r}, stdpc_n={s64!r} on one array object")
                 fvar = float(call("varpc_n", pyrepseq.varpc_n, ia))
-                e_var_float += pr * Fraction(fvar)
+                e_var_float += pr * exact_of(fvar, "varpc_n", counts)
                 sd = call("stdpc_n", pyrepseq.stdpc_n, ia)
                 sd = float(sd)
                 if fvar >= 0:
@@ -174,7 +237,7 @@ def check_two(case, rec):
             exact = Fraction(sum(a * b for a, b in zip(c1, c2)), N1 * N2)
             if not close(v, exact, 1e-12):
                 raise Violation("pc2-value", f"pc({s1},{s2}) = {v!r}, exact {exact}")
-            e += pr1 * pr2 * Fraction(v)
+            e += pr1 * pr2 * exact_of(v, "pc2", (c1, c2))
     if not close(e, want, 1e-10, 1e-13):
         raise Violation("pc2-biased", f"N1={N1} N2={N2} p={wp} q={wq}: E[pc(a,b)] = {float(e)!r} != sum p_i q_i = {float(want)!r}")
 
@@ -199,6 +262,20 @@ def two_case(draw, tier="quick"):
             "order": draw(st.sampled_from(["sorted", "reversed", "interleaved"]))}
 
 
+@st.composite
+def large_case(draw, tier="quick"):
+    K = draw(st.integers(1, 6))
+    big = st.one_of(st.integers(2 ** 15, 2 ** 17), st.integers(2 ** 20, 2 ** 24), st.integers(2 ** 30, 2 ** 31 - 1),
+                    st.sampled_from([46340, 46341, 65535, 65536, 2097151, 2097152, 2097153, 3037000499 // 1000, 2 ** 31 - 1]))
+    counts = [draw(big) if draw(st.integers(0, 2)) else draw(st.integers(0, 9)) for _ in range(K)]
+    if sum(counts) < 4:
+        counts[0] += 2 ** 21
+    dtype = draw(st.sampled_from(["int64", "int64", "uint64", "uint32", "int32", "float64"]))
+    if dtype == "int32":
+        counts = [min(c, 2 ** 31 - 1) for c in counts]
+    return {"counts": counts, "dtype": dtype, "container": draw(st.sampled_from(["ndarray", "ndarray", "list", "series"]))}
+
+
 def enum_grid(tier):
     # sizes "beyond the range" that stay exactly enumerable
     for N in ([4, 5, 6, 7, 17, 50, 120] if tier == "quick" else list(range(2, 60)) + [90, 120, 200]):
@@ -217,4 +294,5 @@ SUBS = [
     Sub("grid", check_one, enum=enum_grid),
     Sub("one_sample", check_one, strategy=lambda t: one_case(t), budget=(600, 6000)),
     Sub("two_sample", check_two, strategy=lambda t: two_case(t), budget=(300, 3000)),
+    Sub("large_counts", check_large, strategy=lambda t: large_case(t), budget=(1500, 15000)),
 ]
